@@ -327,11 +327,38 @@ def cval(v):
     raise ValueError("bad value dump %r" % (v,))
 
 
+# Within one case the same decoded value / tree occurs dozens of times (three formats, eight extensions, MustLoad,
+# wrappers ...).  Coq's front end is what a case costs (string literals), so every distinct sub-term longer than a
+# few characters is bound ONCE by a `let` in front of the case term (coq_case) and referred to by name.
+_LET = None
+
+
+def let_bound(text):
+    if _LET is None or len(text) < 24:
+        return text
+    name = _LET.get(text)
+    if name is None:
+        name = "sh%d" % len(_LET)
+        _LET[text] = name
+    return name
+
+
+def with_lets(render):
+    global _LET
+    _LET = {}
+    try:
+        body = render()
+        lets = "".join("let %s := %s in " % (name, text) for text, name in _LET.items())
+    finally:
+        _LET = None
+    return lets + body
+
+
 def cob(r):
     if r is None:
         return "OErr"
     if r["verdict"] == "ok":
-        return "(OOk %s)" % cval(r["val"])
+        return let_bound("(OOk %s)" % cval(r["val"]))
     if r["verdict"] == "panic":
         return "OPanic"
     if r["verdict"] == "shared":
@@ -371,7 +398,7 @@ def cmid(m):
     if m is None or not m.get("ok"):
         return "None"
     try:
-        return "(Some %s)" % cjv(parse_mid(m["json"]))
+        return let_bound("(Some %s)" % cjv(parse_mid(m["json"])))
     except ValueError:
         return "None"
 
@@ -1119,7 +1146,7 @@ def cobx(r):
     if r is None:
         return "XErr"
     if r["verdict"] == "ok":
-        return "(XOk %s)" % cstr(json.dumps(r["val"], sort_keys=True))
+        return let_bound("(XOk %s)" % cstr(json.dumps(r["val"], sort_keys=True)))
     if r["verdict"] == "shared":
         return "XShared"
     return "XPanic" if r["verdict"] == "panic" else "XErr"
@@ -1132,7 +1159,7 @@ def cobx3(m):
 def clc(text):
     if not text:
         return "None"
-    return "(Some %s)" % cjv(parse_mid(text))
+    return let_bound("(Some %s)" % cjv(parse_mid(text)))
 
 
 SHAPE_KEYS = ["NodeList", "Upstreams", "byName", "Peers", "DataSource", "etcdHosts", "Routes", "cacheConf"]
@@ -2047,6 +2074,9 @@ class C17(Property):
         return res
 
     def coq_case(self, case, obs):
+        return with_lets(lambda: self.coq_case_body(case, obs))
+
+    def coq_case_body(self, case, obs):
         if case["kind"] == "std":
             return "CaseStd %s %s %s %s" % (ccfields(case["type"]), cdoc(case["doc"]), cob(obs.get("mapping")),
                                             cob(obs.get("stdjson")))
